@@ -225,7 +225,7 @@ def sig_oracle_fixed(sig, key, z):
     return ecdsa_verify_ref(pub, z, r, s)
 
 
-def sig_oracle_tx(sig, key, code, sv, tx):
+def sig_oracle_tx(sig, key, code, sv, tx, idx=0):
     pub = parse_pubkey_ref(key)
     if pub is None or not sig:
         return False
@@ -240,9 +240,9 @@ def sig_oracle_tx(sig, key, code, sv, tx):
     sc = network.tx.SolutionChecker(tx)
     before = tx.as_bin()
     if sv == "wit":
-        z = sc._signature_for_hash_type_segwit(code, 0, ht)
+        z = sc._signature_for_hash_type_segwit(code, idx, ht)
     else:
-        z = sc._signature_hash(code, 0, ht)
+        z = sc._signature_hash(code, idx, ht)
     assert tx.as_bin() == before
     return ecdsa_verify_ref(pub, z, r, s)
 
@@ -267,10 +267,38 @@ def build_txs(script_sig, script_pk, witness, amount=0, version=1, locktime=0, s
     return credit, spend
 
 
+def real_tx(case):
+    """the transaction of a case that carries a real one (Core's tx_valid / tx_invalid vectors)"""
+    from pycoin.symbols.btc import network
+    t = case["tx"]
+    tx = network.tx.from_hex(t["hex"])
+    tx.set_unspents([network.tx.Spendable(coin_value=a, script=bytes.fromhex(sc), tx_hash=tx.txs_in[i].previous_hash,
+                                          tx_out_index=tx.txs_in[i].previous_index)
+                     for i, (sc, a) in enumerate(t["prevouts"])])
+    return tx, t["idx"]
+
+
+def spend_tx_of(case):
+    if "tx" in case:
+        return real_tx(case)
+    return build_txs(bytes(case["sig"]), bytes(case["pk"]), [bytes(w) for w in case["wit"]], case.get("amount", 0),
+                     case["ctx"]["version"], int.from_bytes(bytes(case["ctx"]["locktime"]), "little"),
+                     int.from_bytes(bytes(case["ctx"]["sequence"]), "little"))[1], 0
+
+
 def run_spend(case):
     """-> ("ok",) | ("fail", errname) | ("exc", repr)"""
     from pycoin.symbols.btc import network
     ScriptError = network.validator.ScriptError
+    if "tx" in case:
+        spend, idx = real_tx(case)
+        try:
+            spend.check_solution(idx, flags=_flagbits(case["flags"]))
+            return ("ok",)
+        except ScriptError as e:
+            return ("fail", str(e.args[0]) if e.args else "")
+        except Exception as e:  # noqa
+            return ("exc", "%s: %s" % (type(e).__name__, e))
     _, spend = build_txs(bytes(case["sig"]), bytes(case["pk"]), [bytes(w) for w in case["wit"]],
                          case.get("amount", 0), case["ctx"]["version"],
                          int.from_bytes(bytes(case["ctx"]["locktime"]), "little"),
@@ -602,3 +630,34 @@ def concretize(shape):
         witness = [b"\x01"]
     return mk_case("spend", ss, spk, witness, flags=flags, version=2, locktime=100, sequence=10, amount=AMOUNT,
                    shape=[pk, leaf, sigk, witk])
+
+
+def load_core_tx_tests(path, valid):
+    """Core's tx_valid.json / tx_invalid.json -> list of (cases per input, comment, tx hex)"""
+    from pycoin.symbols.btc import network
+    out = []
+    comment = ""
+    for t in json.load(open(path)):
+        if len(t) == 1:
+            comment = t[0]
+            continue
+        prevouts, txhex, fl = t
+        flags = [f for f in fl.split(",") if f and f != "NONE"]
+        tx = network.tx.from_hex(txhex)
+        db = {}
+        for po in prevouts:
+            h = bytes.fromhex(po[0])[::-1]
+            idx = po[1] if po[1] >= 0 else po[1] + (1 << 32)
+            db[(h, idx)] = (parse_core_script(po[2]), po[3] if len(po) == 4 else 1000000)
+        pv = []
+        for ti in tx.txs_in:
+            sc, amt = db.get((ti.previous_hash, ti.previous_index), (b"", 0))
+            pv.append([sc.hex(), amt])
+        cases = []
+        for i, ti in enumerate(tx.txs_in):
+            c = mk_case("spend", ti.script, bytes.fromhex(pv[i][0]), list(ti.witness), flags=flags,
+                        version=tx.version & 0x7FFFFFFF if tx.version >= 0 else 2, locktime=tx.lock_time, sequence=ti.sequence,
+                        amount=pv[i][1], tx={"hex": txhex, "idx": i, "prevouts": pv}, text=[comment[:80], fl])
+            cases.append(c)
+        out.append((cases, comment, txhex))
+    return out
